@@ -1,6 +1,13 @@
 open Model
 open Fpmodel
-open H_pathenc
+(* readers shared in form with h_pathenc.ml (each handler group is compiled against its own extracted module) *)
+let next_edge () = let u = next_n () in let v = next_n () in (u, v)
+let next_adj () = next_list (fun () -> let v = next_n () in let ns = next_list next_n in (v, ns))
+let next_stgraph () =
+  let nodes = next_list next_n in let edges = next_list next_edge in
+  let s = next_n () in let t = next_n () in let succ = next_adj () in let pred = next_adj () in
+  { g_nodes = nodes; g_edges = edges; g_src = s; g_snk = t; g_succ = succ; g_pred = pred }
+let next_eq () = let e = next_edge () in let x = next_q () in (e, x)
 (* wire format of the cyclic instances (see harness/e1cyc.py) *)
 let next_edges () = next_list next_edge
 let next_seqs () = next_list next_edges
